@@ -160,6 +160,15 @@ def prior_identity(ctx, pr, kind):
         return (p + 0.0) is p
     if kind == 'mul1.0':
         return (p * 1.0) is p
+    # nearly, but not exactly, the identity: a new prior must come back
+    if kind == 'add_tiny':
+        return (p + 5e-9) is p
+    if kind == 'radd_tiny':
+        return (-3e-9 + p) is p
+    if kind == 'mul_near1':
+        return (p * 1.000004) is p
+    if kind == 'div_near1':
+        return (p / 0.9999999) is p
     if kind == 'np_radd0':
         return (np.float64(0) + p) is p
     if kind == 'np_rmul1':
